@@ -33,7 +33,7 @@ ASSUMPTIONS = [
 COMPONENTS = {"real": ["Transmitter", "TradingEnv", "TradingEnvXY", "Exchange", "Broker", "State", "Feature", "sklearn transformers"],
               "harness": ["event-value perturbation", "recording observers"], "stub": []}
 PROBE_FLOORS = {"cut_on_first_step": 27, "cut_on_last_step": 30, "cut_in_middle": 80, "extra_events_in_latency_window_after_cut": 17,
-                "fold_boundary_after_cut": 10, "window_straddles_cut": 100, "effective_perturbation": 114, "xy_twin": 12, "judged_on_second_environment_with_smaller_latency": 15, "custom_events_loaded_from_table": 25, "final_track_record_entry_compared": 800, "xy_second_environment_from_the_same_tables": 5}
+                "fold_boundary_after_cut": 10, "window_straddles_cut": 100, "effective_perturbation": 114, "xy_twin": 12, "judged_on_second_environment_with_smaller_latency": 15, "custom_events_loaded_from_table": 25, "final_track_record_entry_compared": 800, "xy_second_environment_from_the_same_tables": 5, "xy_feature_rows_stamped_nanoseconds_after_the_cut": 6}
 
 PROFILE = {
     "n_min": 4, "n_max": 14, "n_long": 40, "p_long": 0.08, "c_min": 1, "c_max": 4, "p_bar": 1.0, "extras_max": 12,
@@ -285,6 +285,8 @@ def generate_xy(rng, i):
           "transformer_end": tb["dates"][kcut if rng.random() < 0.4 else rng.randint(n // 4, kcut)]}
     ny = len(tb["ycols"])
     acts = [[round(rng.uniform(-0.3, 0.5), 4) for _ in range(ny)] for _ in range(7)]
+    if i % 5 == 2:
+        tb["x_offset_ns"] = 500      # feature rows stamped half a microsecond after the price rows (nanosecond index)
     return {"kind": "xy", "tables": tb, "kwargs": kw, "fold": None, "actions": acts, "np_seed": rng.randrange(2 ** 31),
             "cut": tb["dates"][kcut], "pseed": rng.randrange(2 ** 31), "shared_first": rng.random() < 0.4}
 
@@ -299,7 +301,7 @@ def perturb_tables(tb, cut, pseed):
         if out.get("rate") is not None:
             out["rate"][j] = round(prng.uniform(0, 0.05), 5)
     for row_i, j in enumerate(out["x_rows"]):
-        if out["dates"][j] > cut:
+        if out["dates"][j] > cut or (out.get("x_offset_ns") and out["dates"][j] == cut):     # stamped a few hundred ns after the cut
             out["X"][row_i] = [prng.gauss(0, 2) if v == v else v for v in out["X"][row_i]]
     return out
 
@@ -333,6 +335,8 @@ def execute_xy(scenario):
     probe("xy_twin")
     if scenario.get("shared_first"):
         probe("xy_second_environment_from_the_same_tables")
+    if scenario["tables"].get("x_offset_ns") and len(a) >= 2:
+        probe("xy_feature_rows_stamped_nanoseconds_after_the_cut")
     if effective:
         probe("effective_perturbation")
     if len(a) >= 2:
